@@ -212,6 +212,10 @@ TraceContinue == /\ active /\ phase = "after" /\ NeedsIdle /\ Continue /\ UNCHAN
 TraceEnd == /\ active /\ HasLine /\ Line.ev = "End" /\ phase = "closed"
             /\ unread \/ HandledOK(Len(hlog))
             /\ ~(topen /\ pairReq # 0)         \* the pair of a handled request has been finished
+            \* C02: the digest of everything handlers saw and clients received (raw header values, bodies, trailers,
+            \* responses) equals the digest of the same case delivered unfragmented (equal by definition when the
+            \* case is not a fragmented re-run)
+            /\ Line.digest = Line.ref
             /\ Blank /\ Consume
 
 Normal == TraceCase \/ TraceDeliver \/ TraceEof \/ TraceInterim \/ TraceHandle \/ TraceReadBuffered \/ TraceReadStream
